@@ -32,9 +32,37 @@ func c08Election(c *core.Ctx) {
 			all = append(all, g)
 			all = append(all, allLits(g)...)
 		}
+		// election sites of a function: the (re)sets it performs in place, plus calls of a helper on its own
+		// receiver that (re)sets the election on every path on which no step failed with validators that
+		// are the helper's parameter — bound to the caller's argument (Val is an expression of the caller)
+		type elecSite struct {
+			Pt   core.Point
+			Pos  token.Pos
+			Name string
+			Val  ast.Expr
+			New  bool
+		}
+		sitesOf := map[*core.FuncInfo][]elecSite{}
+		for _, g := range all {
+			for _, st := range c09effectSites(g, isElec, 2) {
+				in := st.Inner()
+				es := elecSite{Pt: st.Outer().Pt, Pos: st.Outer().Pos(), Name: in.Name, New: in.Name == "abft/election.New"}
+				if len(st.Chain) == 1 {
+					if len(in.Call.Args) > 0 {
+						es.Val = in.Call.Args[0]
+					}
+					sitesOf[g] = append(sitesOf[g], es)
+					continue
+				}
+				if vg, varg := c08arg(st, 0); vg == g && varg != nil {
+					es.Val = varg
+					sitesOf[g] = append(sitesOf[g], es)
+				}
+			}
+		}
 		owner := map[*core.FuncInfo]bool{}
 		for _, g := range all {
-			if len(g.CallsMatching(isElec)) > 0 {
+			if len(sitesOf[g]) > 0 {
 				owner[g] = true
 			}
 		}
@@ -85,13 +113,95 @@ func c08Election(c *core.Ctx) {
 			nt, ok := t.(*types.Named)
 			return ok && p.ObjName(nt.Obj()) == "inter/pos.Validators"
 		}
+		callers := map[*core.FuncInfo][]*core.FuncInfo{}
+		for _, g := range all {
+			for _, cs := range g.Calls() {
+				if fn, isF := cs.Callee.(*types.Func); isF {
+					if h := p.FuncOf(fn); h != nil && h != g {
+						callers[h] = append(callers[h], g)
+					}
+				}
+			}
+		}
+		// the validators variable a call in g persists: an argument of validators type of SetEpochState or
+		// of a non-owner callee that may write the epoch state
+		persistedIn := func(g *core.FuncInfo, w *core.CallSite) *types.Var {
+			isW := w.Name == setES
+			if !isW {
+				if fn, isF := w.Callee.(*types.Func); isF {
+					if h := p.FuncOf(fn); h != nil && h != g && !owner[h] && mayWrite(h, 2) {
+						isW = true
+					}
+				}
+			}
+			if !isW {
+				return nil
+			}
+			for _, a := range w.Call.Args {
+				if v := varOf(g, a); v != nil && isValidators(v.Type()) {
+					return v
+				}
+			}
+			return nil
+		}
+		// persistedByCallers: every call of f passes as argument k a variable that the caller has persisted
+		// on every path to the call (or, bounded, its own unassigned parameter under the same condition)
+		var persistedByCallers func(f *core.FuncInfo, k int, depth int) bool
+		persistedByCallers = func(f *core.FuncInfo, k int, depth int) bool {
+			n := 0
+			seen := map[*core.FuncInfo]bool{}
+			for _, cl := range callers[f] {
+				if seen[cl] {
+					continue
+				}
+				seen[cl] = true
+				for _, cs := range cl.Calls() {
+					fn, isF := cs.Callee.(*types.Func)
+					if !isF || p.FuncOf(fn) != f {
+						continue
+					}
+					n++
+					if k >= len(cs.Call.Args) {
+						return false
+					}
+					av := varOf(cl, cs.Call.Args[k])
+					if av == nil {
+						return false
+					}
+					var before []core.Point
+					for _, w := range cl.Calls() {
+						if persistedIn(cl, w) == av {
+							before = append(before, w.Pt)
+						}
+					}
+					okC := len(before) > 0
+					if okC {
+						okC, _ = cl.MustPassBefore(before, cs.Pt)
+						for _, a := range assignsToVar(cl, av) {
+							for _, b := range before {
+								if cl.CanReach(b, a.Pt) && cl.CanReach(a.Pt, cs.Pt) {
+									okC = false // reassigned between the write and the call
+								}
+							}
+						}
+					}
+					if !okC && depth > 0 && len(assignsToVar(cl, av)) == 0 && c24paramIndex(cl, av) >= 0 {
+						okC = persistedByCallers(cl, c24paramIndex(cl, av), depth-1)
+					}
+					if !okC {
+						return false
+					}
+				}
+			}
+			return n > 0
+		}
 		nElec, nNew := 0, 0
 		for _, f := range all {
 			if !owner[f] {
 				continue
 			}
 			name := short(f.Name)
-			elec := f.CallsMatching(isElec)
+			elec := sitesOf[f]
 			var writes []*core.CallSite
 			for _, cs := range f.Calls() {
 				if cs.Name == setES {
@@ -163,13 +273,13 @@ func c08Election(c *core.Ctx) {
 				pv := persisted(w)
 				var agree []core.Point
 				for _, r := range elec {
-					if len(r.Call.Args) == 0 {
+					if r.Val == nil {
 						continue
 					}
 					// the validators handed to the election may be held in a local that is assigned on several
 					// branches: every definition that can reach the site on a run through w has to agree
 					okAll, n := true, 0
-					for _, d := range c08reaching(f, r.Call.Args[0], r.Pt, keep...) {
+					for _, d := range c08reaching(f, r.Val, r.Pt, keep...) {
 						if !c08sameRun(f, d, w.Pt) {
 							continue
 						}
@@ -203,21 +313,21 @@ func c08Election(c *core.Ctx) {
 					name+" persists a new epoch state ("+short(w.Name)+") and can return without resetting the election with it: the running instance keeps electing with the previous validators while a restarted one builds the election from the persisted ones; path "+f.DescribePath(wit))
 			}
 			for _, r := range elec {
-				if r.Name == "abft/election.New" {
+				if r.New {
 					nNew++
 				} else {
 					nElec++
 				}
-				if len(r.Call.Args) == 0 {
+				if r.Val == nil {
 					continue
 				}
-				for _, d := range c08reaching(f, r.Call.Args[0], r.Pt, keep...) {
+				for _, d := range c08reaching(f, r.Val, r.Pt, keep...) {
 					if _, ok := storeRead(d.E); ok {
 						continue // decided from the write's side above
 					}
 					v := varOf(f, d.E)
 					if v == nil {
-						c.Undecided(name+"|validators of "+short(r.Name), "provenance", r.Pos(), "the validators argument "+exprStr(r.Call.Args[0])+" (value "+exprStr(d.E)+") is neither read from the store nor a variable")
+						c.Undecided(name+"|validators of "+short(r.Name), "provenance", r.Pos, "the validators argument "+exprStr(r.Val)+" (value "+exprStr(d.E)+") is neither read from the store nor a variable")
 						continue
 					}
 					var before []core.Point
@@ -227,6 +337,13 @@ func c08Election(c *core.Ctx) {
 						}
 					}
 					ok := len(before) > 0
+					if !ok && d.Direct && len(assignsToVar(f, v)) == 0 && c24paramIndex(f, v) >= 0 {
+						// the validators are the function's own parameter and it persists nothing itself: every
+						// caller must have persisted what it passes before the call
+						ok = persistedByCallers(f, c24paramIndex(f, v), 2)
+						c.Check(ok, name+"|validators given to "+short(r.Name)+" were persisted first", "T2 Dominates (callers)", r.Pos, "every caller stores an epoch state holding the validators it passes before it calls "+name, name+" resets the election with its validators parameter, and some caller passes validators it has not persisted before the call: a restart at the next boundary builds a different election")
+						continue
+					}
 					if ok {
 						// the write precedes the point where the value is taken, or lies between it and the site
 						ok, _ = f.MustPassBefore(before, d.Pt)
@@ -234,23 +351,13 @@ func c08Election(c *core.Ctx) {
 							ok, _ = f.MustPassBetween(d.Pt, before, r.Pt)
 						}
 					}
-					c.Check(ok, name+"|validators given to "+short(r.Name)+" were persisted first", "T2 Dominates", r.Pos(), "the epoch state holding these validators is stored before the election is reset with them", name+" resets the election with validators that are not the persisted ones at that point: a restart at the next boundary builds a different election")
+					c.Check(ok, name+"|validators given to "+short(r.Name)+" were persisted first", "T2 Dominates", r.Pos, "the epoch state holding these validators is stored before the election is reset with them", name+" resets the election with validators that are not the persisted ones at that point: a restart at the next boundary builds a different election")
 				}
 			}
 		}
 		// a function outside the store that may persist an epoch state without owning the election must be
 		// reached only from functions that are judged above (its callers, transitively): an entry point
 		// that persists validators and never touches the election leaves the running election on the old set
-		callers := map[*core.FuncInfo][]*core.FuncInfo{}
-		for _, g := range all {
-			for _, cs := range g.Calls() {
-				if fn, isF := cs.Callee.(*types.Func); isF {
-					if h := p.FuncOf(fn); h != nil && h != g {
-						callers[h] = append(callers[h], g)
-					}
-				}
-			}
-		}
 		for _, g := range all {
 			if owner[g] || g.Obj == nil || g.RecvTypeName() == "abft.Store" || !mayWrite(g, 2) {
 				continue
